@@ -77,6 +77,12 @@ def build(hist):
             if alloc:
                 target = target.get_sub_alloc(alloc)
             cell.add_app(target, app)
+        elif k == 'move':
+            if op[1] in apps:
+                target = cell.partitions[op[2]].allocation
+                if op[3]:
+                    target = target.get_sub_alloc(op[3])
+                cell.add_app(target, apps[op[1]])
         elif k == 'rmapp':
             cell.remove_app(op[1])
             apps.pop(op[1], None)
@@ -211,8 +217,10 @@ def rand_history(rng):
                       rng.choice(['p.a', 'p.b']), rng.choice([None, {'server': 1}, {'rack': 1}, {'cell': 2}]),
                       rng.choice([None, None, 'g']), rng.choice([0, 50, None]), rng.choice([0, 0, 500]),
                       rng.choice([0, 0, 2])))
-        elif c < 0.45 and n:
+        elif c < 0.42 and n:
             h.append(('rmapp', 'p.a#%d' % rng.randint(1, n)))
+        elif c < 0.45 and n:
+            h.append(('move', 'p.a#%d' % rng.randint(1, n), rng.choice([None, 'p2']), rng.choice([None, 'a1'])))
         elif c < 0.55:
             h.append(('state', 's%d' % rng.randrange(nsrv), rng.choice(['up', 'down', 'frozen'])))
         elif c < 0.6 and n:
